@@ -1942,16 +1942,16 @@ mod navaxes {
 #[allow(dead_code)]
 mod htmltree {
     use xot::Xot;
-    /// input: "<root kind>|<child kinds>|<indent>": kinds: p P b(r) B(R) i(mg) s(cript) S(TYLE) x(unknown) m(athml) v(svg) f(oreign)
+    /// input: "<root kind>|<child kinds>|<indent>": kinds: p P b(r) B(R) j (bR: HTML names are ASCII case-insensitive) i(mg) s(cript) r (sCript) S(TYLE) x(unknown) m(athml) v(svg) f(oreign)
     /// t (text with < and &) c(omment) q (PI) Q (PI with '>'); root kind may also be D (document with the children directly),
     /// T (a detached text node), F (fragment: children directly under a document node)
     pub fn inputs(large: bool) -> Vec<String> {
-        let kids = ['p', 'P', 'b', 'B', 'i', 's', 'S', 'x', 'm', 'v', 'f', 't', 'u', 'c', 'q', 'Q'];
+        let kids = ['p', 'P', 'b', 'B', 'j', 'i', 's', 'S', 'x', 'm', 'v', 'f', 't', 'u', 'c', 'q', 'Q'];
         let mut seqs: Vec<String> = vec![String::new()];
         let mut frontier = seqs.clone();
         for _ in 0..(if large { 3 } else { 2 }) { let mut next = Vec::new(); for s in &frontier { for k in kids { next.push(format!("{}{}", s, k)); } } seqs.extend(next.iter().cloned()); frontier = next; }
         let mut v = Vec::new();
-        for r in ['p', 'P', 's', 'x', 'm', 'v', 'f', 'D', 'F'] { for s in &seqs { for ind in ["0", "1"] { v.push(format!("{}|{}|{}", r, s, ind)); } } }
+        for r in ['p', 'P', 's', 'r', 'x', 'm', 'v', 'f', 'D', 'F'] { for s in &seqs { for ind in ["0", "1"] { v.push(format!("{}|{}|{}", r, s, ind)); } } }
         v.push("T||0".into()); v.push("T||1".into());
         // nested documents (parsed): void elements that carry declarations of their own inside HTML, SVG and MathML
         for k in 0..nested_docs().len() { for ind in ["0", "1"] { v.push(format!("N|{}|{}", k, ind)); } }
@@ -2021,7 +2021,7 @@ mod htmltree {
     fn mk(xot: &mut Xot, k: char) -> Option<xot::Node> {
         let el = |xot: &mut Xot, local: &str, ns: &str| { let n = xot.add_namespace(ns); let nm = xot.add_name_ns(local, n); xot.new_element(nm) };
         Some(match k {
-            'p' => el(xot, "p", ""), 'P' => el(xot, "P", ""), 'b' => el(xot, "br", ""), 'B' => el(xot, "BR", ""), 'i' => el(xot, "img", ""),
+            'p' => el(xot, "p", ""), 'P' => el(xot, "P", ""), 'b' => el(xot, "br", ""), 'B' => el(xot, "BR", ""), 'i' => el(xot, "img", ""), 'j' => el(xot, "bR", ""), 'r' => el(xot, "sCript", ""),
             's' => el(xot, "script", ""), 'S' => el(xot, "STYLE", ""), 'x' => el(xot, "blink", ""),
             'm' => el(xot, "math", "http://www.w3.org/1998/Math/MathML"), 'v' => el(xot, "svg", "http://www.w3.org/2000/svg"),
             'f' => { let e = el(xot, "frob", "urn:foreign"); let p = xot.add_prefix("f"); let u = xot.add_namespace("urn:foreign"); xot.namespaces_mut(e).insert(p, u); e }
@@ -2065,9 +2065,9 @@ mod htmltree {
         if low.contains("<svg") && !low.contains("<svg xmlns=\"http://www.w3.org/2000/svg\"") { return Some(format!("{}: SVG element not written unprefixed under a default declaration: {:?}", input, s)); }
         if low.contains(":math") || low.contains(":svg") { return Some(format!("{}: MathML / SVG element written with a prefix: {:?}", input, s)); }
         // '<' and '&' from text raw only inside script / style
-        let raw_expected = text_parents.iter().filter(|p| **p == 's').count();
+        let raw_expected = text_parents.iter().filter(|p| **p == 's' || **p == 'r').count();
         if s.matches("a<b&c").count() != raw_expected { return Some(format!("{}: raw '<' / '&' from text {} time(s), expected {} (script / style only): {:?}", input, s.matches("a<b&c").count(), raw_expected, s)); }
-        let raw_lt = lt_parents.iter().filter(|p| **p == 's').count();
+        let raw_lt = lt_parents.iter().filter(|p| **p == 's' || **p == 'r').count();
         if s.matches("x<y").count() != raw_lt { return Some(format!("{}: raw '<' from text {} time(s), expected {} (script / style only): {:?}", input, s.matches("x<y").count(), raw_lt, s)); }
         let _ = rk;
         None
